@@ -2,7 +2,7 @@
 import ast
 
 from vstat.loader import AnalysisError
-from vstat.terms import builder, show, SELF, NONE, G, alts, walk, mentions, phi
+from vstat.terms import IT, builder, show, SELF, NONE, G, alts, walk, mentions, phi
 from vstat.guards import path_conditions
 from vstat.cfg import cfg_of
 from vstat.sigs import bind
@@ -70,8 +70,8 @@ def compute(prog, rep):
               f"the boundary must be region minus the erosion of the SAME region with scipy's default border value, and the labelled array must be that boundary; found {show(full_t)[:160]}")
     # region is the selection result (or the all-ones fallback)
     # ---- coordinates
-    labeled = ("item", lab[1], 0)
-    nmodes = ("item", lab[1], 1)
+    labeled = IT(lab[1], 0)
+    nmodes = IT(lab[1], 1)
     loops = [s for s in cfg.all_stmts() if isinstance(s, ast.For)]
     lab_loop = [l for l in loops if b.term(l.iter, l) == ("call", G("range"), (("const", 1), ("bin", "+", nmodes, ("const", 1))), ())]
     rep.check(len(lab_loop) == 1, "C15.coords", f"{q}:labels", fn.where(lab[0]), "for i in range(1, n_modes + 1)",
